@@ -6,9 +6,10 @@ Import ListNotations.
 
 Section Acq.
 Variable sf : key -> sid.
+Variable KP : list key -> Prop.
 Notation holderK := (holderK sf).
 Notation maxK := (maxK sf).
-Notation inv := (inv sf).
+Notation inv := (inv sf KP).
 
 Definition acq_pre (L : latches) (rl : lid -> role) (wl wl' : list lid) (rel : option lid) (i : lid) : Prop :=
   (rl i = RAcq /\ wl' = wl) \/ (rl i = RWait /\ wl = i :: wl' /\ lstale (locks L i) = false /\ rel = None).
@@ -21,7 +22,7 @@ Lemma acq_pre_facts L rl wl wl' ch rel st i k :
   rel <> Some i /\ ~ In i ch /\ (rl i = RAcq \/ rl i = RWait) /\ NoDup wl' /\
   (In i wl -> (maxK L k <= lstart (locks L i))%N).
 Proof.
-  intros I K PRE. destruct I as [i_q0 i_sorted0 i_acq0 i_hold0 i_role0 i_wait0 i_wnd0 i_wl_nd0 i_wl0 i_rel0 i_chan_nd0 i_chan0 i_started0 i_maxsrc0 i_relpc0 i_stale0 i_live0 i_acqok0].
+  intros I K PRE. destruct I as [i_q0 i_sorted0 i_hnd0 i_acq0 i_hold0 i_role0 i_wait0 i_wnd0 i_wl_nd0 i_wl0 i_rel0 i_chan_nd0 i_chan0 i_started0 i_maxsrc0 i_relpc0 i_stale0 i_live0 i_acqok0].
   assert (LT : lacq (locks L i) < length (lkeys (locks L i))) by (apply nth_error_Some; unfold key_at in K; congruence).
   assert (KI : In k (lkeys (locks L i))) by (eapply nth_error_In; eauto).
   destruct PRE as [[R E]|(R & E & S & RN)].
@@ -54,7 +55,7 @@ Lemma inv_acq_success L rl wl wl' ch rel st i k L' rl' :
 Proof.
   intros I K PRE EF Q' R'.
   destruct (acq_pre_facts _ _ _ _ _ _ _ _ _ I K PRE) as (SI & NIW & NIWL & SUB & WLX & LT & KI & NRI & NCI & ROLEI & ND' & _).
-  destruct I as [i_q0 i_sorted0 i_acq0 i_hold0 i_role0 i_wait0 i_wnd0 i_wl_nd0 i_wl0 i_rel0 i_chan_nd0 i_chan0 i_started0 i_maxsrc0 i_relpc0 i_stale0 i_live0 i_acqok0]. inversion EF as [HN ML HH MM WW LL GG | |]; subst.
+  destruct I as [i_q0 i_sorted0 i_hnd0 i_acq0 i_hold0 i_role0 i_wait0 i_wnd0 i_wl_nd0 i_wl0 i_rel0 i_chan_nd0 i_chan0 i_started0 i_maxsrc0 i_relpc0 i_stale0 i_live0 i_acqok0]. inversion EF as [HN ML HH MM WW LL GG | |]; subst.
   set (li := locks L i) in *.
   assert (LKI : locks L' i = set_acq li (S (lacq li))) by (rewrite LL; unfold upd_lock; rewrite Nat.eqb_refl; auto).
   assert (LKX : forall x, x <> i -> locks L' x = locks L x).
@@ -70,6 +71,7 @@ Proof.
   constructor.
   - exact Q'.
   - intros x. xi x i; [rewrite LKI; simpl; apply i_sorted0 | rewrite LKX by auto; apply i_sorted0].
+  - intros x. xi x i; [rewrite HI; apply nodup_snoc; [apply i_hnd0 | apply NH] | rewrite LKX by auto; apply i_hnd0].
   - intros x. xi x i; [rewrite LKI; simpl; exact LT | rewrite LKX by auto; apply i_acq0].
   - intros x k0. rewrite HH. xi x i.
     + rewrite HI, in_app_iff. simpl. destruct (N.eqb_spec k0 k) as [->|NK].
@@ -128,7 +130,7 @@ Lemma inv_acq_stale L rl wl wl' ch rel st i k L' rl' :
 Proof.
   intros I K PRE EF Q' R'.
   destruct (acq_pre_facts _ _ _ _ _ _ _ _ _ I K PRE) as (SI & NIW & NIWL & SUB & WLX & LT & KI & NRI & NCI & ROLEI & ND' & DD).
-  destruct I as [i_q0 i_sorted0 i_acq0 i_hold0 i_role0 i_wait0 i_wnd0 i_wl_nd0 i_wl0 i_rel0 i_chan_nd0 i_chan0 i_started0 i_maxsrc0 i_relpc0 i_stale0 i_live0 i_acqok0]. inversion EF as [| ML HH MM WW LL GG |]; subst.
+  destruct I as [i_q0 i_sorted0 i_hnd0 i_acq0 i_hold0 i_role0 i_wait0 i_wnd0 i_wl_nd0 i_wl0 i_rel0 i_chan_nd0 i_chan0 i_started0 i_maxsrc0 i_relpc0 i_stale0 i_live0 i_acqok0]. inversion EF as [| ML HH MM WW LL GG |]; subst.
   set (li := locks L i) in *.
   assert (NIWL0 : ~ In i wl) by (intros X; specialize (DD X); unfold li in *; lia).
   assert (RA : rl i = RAcq).
@@ -142,6 +144,7 @@ Proof.
   constructor.
   - exact Q'.
   - intros x. xi x i; [rewrite LKI; simpl; apply i_sorted0 | rewrite LKX by auto; apply i_sorted0].
+  - intros x. xi x i; [rewrite LKI; apply (i_hnd0 i) | rewrite LKX by auto; apply i_hnd0].
   - intros x. xi x i; [rewrite LKI; simpl; apply i_acq0 | rewrite LKX by auto; apply i_acq0].
   - intros x k0. rewrite HH. xi x i; [rewrite LKI; apply i_hold0 | rewrite LKX by auto; apply i_hold0].
   - intros x. rewrite R'. xi x i.
@@ -189,7 +192,7 @@ Lemma inv_acq_locked L rl wl wl' ch rel st i k L' rl' :
 Proof.
   intros I K PRE EF Q' R'.
   destruct (acq_pre_facts _ _ _ _ _ _ _ _ _ I K PRE) as (SI & NIW & NIWL & SUB & WLX & LT & KI & NRI & NCI & ROLEI & ND' & DD).
-  destruct I as [i_q0 i_sorted0 i_acq0 i_hold0 i_role0 i_wait0 i_wnd0 i_wl_nd0 i_wl0 i_rel0 i_chan_nd0 i_chan0 i_started0 i_maxsrc0 i_relpc0 i_stale0 i_live0 i_acqok0]. inversion EF as [| | h HN ML HH MM WW LL GG]; subst.
+  destruct I as [i_q0 i_sorted0 i_hnd0 i_acq0 i_hold0 i_role0 i_wait0 i_wnd0 i_wl_nd0 i_wl0 i_rel0 i_chan_nd0 i_chan0 i_started0 i_maxsrc0 i_relpc0 i_stale0 i_live0 i_acqok0]. inversion EF as [| | h HN ML HH MM WW LL GG]; subst.
   assert (WSUB : forall s x, In x (waitS L s) -> In x (waitS L' s)).
   { intros s x X. rewrite WW. destruct (N.eqb s (sf k)); auto. apply in_or_app; auto. }
   assert (P : forall k0, pending L wl k0 -> k0 = k \/ pending L' wl' k0).
@@ -199,6 +202,7 @@ Proof.
   constructor.
   - exact Q'.
   - intros x. rewrite LL. apply i_sorted0.
+  - intros x. rewrite LL. apply i_hnd0.
   - intros x. rewrite LL. apply i_acq0.
   - intros x k0. rewrite HH, LL. apply i_hold0.
   - intros x. rewrite R', LL. xi x i.
